@@ -191,15 +191,17 @@ func init() {
 				if i%4 == 0 {
 					atoms = all
 				}
-				s := randomAtomString(c.Rng, atoms, 200)
-				// keep the text prefix of a random string: cut before the first syntax
-				if _, at := scanText(s); at >= 0 {
-					s = s[:at]
-					if strings.HasSuffix(s, "\\") {
-						s = s[:len(s)-1]
+				// a long string of text only: an atom that would start syntax is dropped, not the rest of the string
+				var sb strings.Builder
+				target := 1 + c.Rng.Intn(400)
+				for tries := 0; sb.Len() < target && tries < 400; tries++ {
+					a := atoms[c.Rng.Intn(len(atoms))]
+					if _, at := scanText(sb.String() + a); at >= 0 {
+						continue
 					}
+					sb.WriteString(a)
 				}
-				runText(c, s)
+				runText(c, sb.String())
 			}})
 			return secs
 		},
